@@ -10,18 +10,18 @@ from .ir import walk_stmts, walk_expr, all_exprs, show
 from .paths import path_of
 
 META = {
-    'explanation': 'E-GNF: six hand-translated helper pairs (compareEraToYearMonth, eraOverlapsInterval, getMostRecentPriorYear, '
-                   'compareTransitionToMatchFuzzy, expandDateTuple, createMatch) are summarised on both sides into guarded normal '
-                   'forms under a per-pair role map (accessor/field names, suffix constants, sentinels) and compared on every '
-                   'ordering of the compared terms consistent with the declared type facts; compareTransitionToMatch (1125 cases: '
+    'explanation': 'E-SEQ, both sides interpreted (C++ typed through the real bodies incl. brokers, DateTuple operators and LocalDate '
+                   'arithmetic; Python over its ast) and compared value for value (acv/rules_C04b.py): compareEraToYearMonth, '
+                   'eraOverlapsInterval, getMostRecentPriorYear, compareTransitionToMatchFuzzy, expandDateTuple, createMatch on families '
+                   'that place every compared quantity before / at / after the one it is compared with (UNTIL cells read through the '
+                   'broker\'s own accessors); compareTransitionToMatch (1125 cases: '
                    'every pair of suffixes x every position of the w/s/u times), processActiveTransition (every status x prior x '
-                   'flag) and the two look-ups (pools of 0..4 transitions, queries around every start) are interpreted on both '
-                   'sides - C++ typed through the real bodies, Python over its ast - and compared; date-tuple normal form (C++ by interval analysis under C07-R1, Python through datetime arithmetic); '
+                   'flag) and the two look-ups (pools of 0..4 transitions, queries around every start); date-tuple normal form (C++ by interval analysis under C07-R1, Python through datetime arithmetic); '
                    'match-window pairing of the two init functions; typestate of the recycled prior slot; E-SEQ (explicit-state abstract '
                    'evaluation of the Python IR, acv/aeval.py): the two active selectors on every sorted abstract candidate list up to six '
                    'entries, and finder + selector pipelines for both candidate finders on a family of small policies and match '
                    'intervals; decision table of the "A/B" abbreviation half on both sides.',
-    'decided': 'the listed helper pairs return the same outcome (result and field effects) for every ordering of their inputs; '
+    'decided': 'the listed helper pairs return the same value (result and field effects) on every member of their stated input family; '
                'both look-up loops keep the last transition whose start <= query; both sides canonicalise date tuples to '
                '0 <= time-of-day < 24h; both sides use the 14-month window around the cache-key year; the reserved prior slot is '
                'cleared before use; on the stated abstract families the Python result does not depend on the selector or on the finder; '
@@ -54,74 +54,8 @@ def _atom(p):
     return None
 
 
-def accessor_resolver(roles):
-    def resolve(e, canon):
-        if e.k == 'call' and e.a[1] is not None and not e.a[2]:
-            short = e.a[0].split('::')[-1]
-            if short in roles:
-                p = canon.path(e.a[1])
-                if p is not None:
-                    return canon.leaf(p + '.' + roles[short])
-        return None
-    return resolve
-
-
-class Pair:
-    def __init__(self, cname, pname, csym=None, psym=None, cfn=None, pfn=None, bool_return=False, project_c=None,
-                 project_p=None, facts=None, constraint=None, min_orderings=3, ctor=False):
-        self.cname, self.pname = cname, pname
-        self.csym, self.psym = csym or {}, psym or {}
-        self.cfn, self.pfn = cfn or {}, pfn or {}
-        self.bool_return = bool_return
-        self.project_c, self.project_p = project_c, project_p
-        self.facts, self.constraint = facts, constraint
-        self.min_orderings = min_orderings
-        self.ctor = ctor
-
-
 def suffix_values(lib):
     return {k: lib.const('ace_time::extended::ZoneContext::' + v) for k, v in SUFFIX.items()}
-
-
-def summarise_pair(lib, zs, pair, sv):
-    cf = lib.fn(XP + pair.cname)
-    sx = SymExec(sym=pair.csym, fn=dict(pair.cfn, **{'ace_time::extended::DateTuple': 'DT', 'ace_time::extended::ZoneMatch': 'MATCH'}),
-                 fold_global=lib.global_value, resolve=accessor_resolver(ACCESSORS))
-    sx.cmp_calls = CMP_CALLS
-    sx.bool_return = pair.bool_return
-    sx.out_params = {p for p, t in cf.params if t and ('&' in t or '*' in t) and not t.strip().startswith('const')}
-    # a private helper extracted on one side only is summarised in place (the abstracted callees of the pair are not)
-    from .gnf import small_helper_inliner
-    base_inl = small_helper_inliner(lib, ['ace_time::ExtendedZoneProcessor::', 'ace_time::extended::'])
-    sx.inliner = lambda name, nargs: None if name in pair.cfn else base_inl(name, nargs)
-    sc = sx.run(pair.cname, cf.body, {})
-    pf = zs.fn(pair.pname)
-    sp_ = SymExec(sym=pair.psym, fn=dict(pair.pfn, DateTuple='DT', ZoneMatch='MATCH'), lang='py')
-    sp_.str_map = dict(sv)
-    sp_.bool_return = pair.bool_return
-    sp_.ctor_roles = {'DateTuple': ['y', 'M', 'd', 'ss', 'f']}
-
-    def py_inl(name, nargs):
-        g_ = zs.funcs.get(name)
-        if g_ is None or name in pair.pfn or name == pair.pname or not name.split('.')[-1].startswith('_'):
-            return None
-        ss = list(walk_stmts(g_.body))
-        return g_ if len(ss) <= 30 and not any(x.k == 'loop' for x in ss) else None
-    sp_.inliner = py_inl
-    sp = sp_.run(pair.pname, pf.body, {})
-    return cf, sc, pf, sp
-
-
-def const_map(mapping):
-    """projection that renames sentinel constants in a result key."""
-    def proj(path):
-        kind, res, eff = path[1], path[2], path[3]
-        if res is not None:
-            p = _P(res)
-            if p.is_const() and p.const_value() in mapping:
-                return (kind, mapping[p.const_value()], ())
-        return (kind, res, tuple(sorted(eff, key=repr)))
-    return proj
 
 
 def effects_final(eff, rename=None):
@@ -144,66 +78,14 @@ def run(cfg):
     zs = py.load(cfg, ZS)
     R.analysed['translation_units'] = ['tu/lib.cpp']
     R.analysed['python_modules'] = [ZS]
-    R.rule('R1', 'hand-translated helper pairs agree on every consistent ordering of their compared terms', floor=8)
+    R.rule('R1', 'hand-translated helper pairs give the same value on both sides for every member of their input family (both sides interpreted)', floor=8)
     R.rule('R1-loop', 'the look-ups of both sides return the last transition whose start <= query on every abstract pool (interpreted)', floor=2)
     R.rule('R2', 'both implementations canonicalise date tuples to 0 <= time of day < 24h', floor=2)
     sv = suffix_values(lib)
-    sufset = set(sv.values())
-    U = lambda n: Poly.atom(('sym', n)).key()
-
-    def suffix_constraint(names):
-        keys = [U(n) for n in names]
-
-        def c(val):
-            for k in keys:
-                r = val.regions.get(k)
-                if r is not None and not (r[0] == 'pt' and r[1] in sufset):
-                    return False
-            return True
-        return c
-    pairs = []
-    # (a) compareEraToYearMonth
-    pairs.append(Pair('compareEraToYearMonth', 'ZoneSpecifier._compare_era_to_year_month',
-                      csym={'yearTiny': 'year'}, psym={'era.untilSeconds': 'era.untilTime'},
-                      facts={U('era.untilTime'): (0, None)}, min_orderings=20))
-    # (b) eraOverlapsInterval
-    era_args_c = {'untilYm.yearTiny': 'untilYm.y', 'untilYm.month': 'untilYm.M', 'startYm.yearTiny': 'startYm.y', 'startYm.month': 'startYm.M'}
-    era_args_p = {'prev_era': 'prev', 'until_ym.y': 'untilYm.y', 'until_ym.M': 'untilYm.M', 'start_ym.y': 'startYm.y', 'start_ym.M': 'startYm.M'}
-    pairs.append(Pair('eraOverlapsInterval', 'ZoneSpecifier._era_overlaps_interval', csym=era_args_c, psym=era_args_p,
-                      cfn={XP + 'compareEraToYearMonth': 'CMPERA'}, pfn={'ZoneSpecifier._compare_era_to_year_month': 'CMPERA'},
-                      bool_return=True, min_orderings=4))
-    # (c) getMostRecentPriorYear
-    pairs.append(Pair('getMostRecentPriorYear', '_get_most_recent_prior_year',
-                      csym={'fromYear': 'from', 'toYear': 'to', 'startYear': 'start'}, psym={'from_year': 'from', 'to_year': 'to', 'start_year': 'start'},
-                      project_c=const_map({lib.const('ace_time::LocalDate::kInvalidYearTiny'): 'NONE'}), project_p=const_map({-1: 'NONE'}),
-                      min_orderings=4))
-    # (d) compareTransitionToMatchFuzzy
-    dsym_c = {}
-    dsym_p = {}
-    for a, b in (('t.transitionTime', 'TT'), ('match.startDateTime', 'MS'), ('match.untilDateTime', 'MU')):
-        dsym_c[a + '.yearTiny'] = b + '.y'
-        dsym_c[a + '.month'] = b + '.M'
-    for a, b in (('transition.transitionTime', 'TT'), ('match.startDateTime', 'MS'), ('match.untilDateTime', 'MU')):
-        dsym_p[a + '.y'] = b + '.y'
-        dsym_p[a + '.M'] = b + '.M'
-    pairs.append(Pair('compareTransitionToMatchFuzzy', '_compare_transition_to_match_fuzzy', csym=dsym_c, psym=dsym_p, min_orderings=4))
-    for pair in pairs:
-        cf, sc, pf, sp = summarise_pair(lib, zs, pair, sv)
-        c = '%s~%s' % (pair.cname, pair.pname)
-        pc = pair.project_c or (lambda p: (p[1], p[2], tuple(sorted(p[3], key=repr))))
-        pp = pair.project_p or (lambda p: (p[1], p[2], tuple(sorted(p[3], key=repr))))
-        n, diffs = compare_pair(sc, sp, pc, pp, pair.facts, pair.constraint)
-        R.instance('R1', c, cf.loc, '%d orderings; %d C++ paths, %d Python paths' % (n, len(sc.paths), len(sp.paths)))
-        if n < pair.min_orderings:
-            raise AnalysisError('%s: only %d orderings compared for %s (degenerate summaries: role map no longer matches the code)' % (cf.loc, n, c))
-        if diffs:
-            d = diffs[0]
-            R.violation('R1', c, cf.loc, 'the two implementations differ when %s: C++ -> %s, Python -> %s' % (d[0], _o(d[1]), _o(d[2])),
-                        detail=['%d differing orderings of %d' % (len(diffs), n), 'Python side: %s' % pf.loc])
+    from . import rules_C04b
+    rules_C04b.helper_pairs(R, lib, zs, sv)
     process_pair(R, lib, zs, sv)
     transition_match_pair(R, lib, zs, sv)
-    expand_pair(R, lib, zs, sv, suffix_constraint)
-    match_pair(R, lib, zs, sv)
     loop_rules(R, lib, zs)
     normal_form_rules(R, lib, zs)
     window_rule(R, lib, zs)
@@ -976,24 +858,6 @@ def window_rule(R, lib, zs):
                     'but the key year is a UTC year and the matches are in local time' % (cw[0][0], cw[0][1], cw[1][0], cw[1][1]))
 
 
-def compare_pair(sc, sp, pc, pp, facts, constraint):
-    diffs = []
-    n = 0
-    for val in valuations(sc.guards() + sp.guards(), facts=facts):
-        if constraint is not None and not constraint(val):
-            continue
-        ha, hb = sc.outcome(val), sp.outcome(val)
-        if len(ha) != 1 or len(hb) != 1:
-            if not ha and not hb:
-                continue
-            raise AnalysisError('summaries of %s/%s are not partitions under {%s}: %d/%d paths' % (sc.name, sp.name, val.describe(), len(ha), len(hb)))
-        n += 1
-        oa, ob = pc(ha[0]), pp(hb[0])
-        if oa != ob:
-            diffs.append((val.describe(), oa, ob))
-    return n, diffs
-
-
 def _o(o):
     kind, res, eff = o
     r = poly_key_str(res) if isinstance(res, tuple) else res
@@ -1122,146 +986,6 @@ def transition_match_pair(R, lib, zs, sv):
         d = diffs[0]
         R.violation('R1', c, cf.loc, 'the two implementations differ when %s: C++ -> %s, Python -> %s' % (d[0], d[1], d[2]),
                     detail=['%d differing cases of %d' % (len(diffs), n), 'Python side: %s' % pf.loc])
-
-
-# -- (f) expandDateTuple / _expand_date_tuple ------------------------------------------------------------------------------
-
-def expand_pair(R, lib, zs, sv, suffix_constraint):
-    role_c = {'tt.yearTiny': 'T.y', 'tt.month': 'T.M', 'tt.day': 'T.d', 'tt.minutes': 'T.t', 'tt.suffix': 'T.f', 'offsetMinutes': 'OFF', 'deltaMinutes': 'DELTA'}
-    role_p = {'dt.y': 'T.y', 'dt.M': 'T.M', 'dt.d': 'T.d', 'dt.ss': 'T.t', 'dt.f': 'T.f', 'offset_seconds': 'OFF', 'delta_seconds': 'DELTA', 'dt': 'tt',
-              'tt.y': 'T.y', 'tt.M': 'T.M', 'tt.d': 'T.d', 'tt.ss': 'T.t', 'tt.f': 'T.f'}
-    pair = Pair('expandDateTuple', 'ZoneSpecifier._expand_date_tuple', csym=role_c, psym=role_p,
-                cfn={XP + 'normalizeDateTuple': 'NORM'}, pfn={'ZoneSpecifier._normalize_date_tuple': 'NORM'})
-    cf, sc, pf, sp = summarise_pair(lib, zs, pair, sv)
-    c = '%s~%s' % (pair.cname, pair.pname)
-    TY, TM, TD, TT, TF = (Poly.atom(('sym', 'T.' + x)).key() for x in ('y', 'M', 'd', 't', 'f'))
-
-    def comps(key, suffix_of_original):
-        """(y, M, d, t, f) of a date tuple value: an init DT atom, or the original tuple `tt`."""
-        a = _atom(_P(key))
-        if a is not None and a[0] == 'init' and a[1] == 'DT' and len(a[2]) == 5:
-            return tuple(a[2])
-        if a == ('sym', 'tt'):
-            return (TY, TM, TD, TT, suffix_of_original)
-        return ('?', key)
-
-    def branch_suffix(guard):
-        """value of T.f on this path (the positive equality literal), else W for the C++ default arm."""
-        pos = []
-
-        def rec(f, neg):
-            if f[0] == 'and':
-                rec(f[1], neg)
-                rec(f[2], neg)
-            elif f[0] == 'not':
-                rec(f[1], not neg)
-            elif f[0] == 'atom' and not neg and f[2] == '==':
-                pos.append(f[3])
-        rec(guard, False)
-        return Poly.const(pos[0]).key() if pos else Poly.const(sv['w']).key()
-
-    def pc(path):
-        e = effects_final(path[3])
-        suf = branch_suffix(path[0])
-        normed = set()
-        for t, v in path[3]:
-            if t == 'call':
-                for a in _P(v).atoms():
-                    if a[0] == 'fn' and a[1] == 'NORM':
-                        normed.add(len(normed))
-        w = e.get('tt', Poly.atom(('sym', 'tt')).key())
-        wc = list(comps(w, suf))
-        if 'T.f' in e and len(wc) == 5:
-            wc[4] = e['T.f']
-        out = {'w': tuple(wc), 's': comps(e.get('tts'), suf), 'u': comps(e.get('ttu'), suf), 'normalised': len(normed) == 3}
-        return ('done', tuple(sorted(out.items())), ())
-
-    def pp(path):
-        if path[1] != 'return':
-            return (path[1], None, ())
-        a = _atom(_P(path[2]))
-        suf = branch_suffix(path[0])
-        out = {}
-        ok = True
-        if a is None or a[0] != 'init' or len(a[2]) != 3:
-            return ('?', path[2], ())
-        for name, k in zip(('w', 's', 'u'), a[2]):
-            f = _atom(_P(k))
-            if f is None or f[0] != 'fn' or f[1] != 'NORM':
-                ok = False
-                out[name] = ('?', k)
-            else:
-                out[name] = comps(f[2][-1], suf)
-        out['normalised'] = ok
-        return ('done', tuple(sorted(out.items())), ())
-    n, diffs = compare_pair(sc, sp, pc, pp, None, suffix_constraint(['T.f']))
-    R.instance('R1', c, cf.loc, '%d orderings' % n)
-    if n < 3:
-        raise AnalysisError('%s: only %d orderings compared for %s' % (cf.loc, n, c))
-    if diffs:
-        d = diffs[0]
-        R.violation('R1', c, cf.loc, 'the two implementations differ when %s: C++ -> %s, Python -> %s' % (d[0], _fmt_expand(d[1]), _fmt_expand(d[2])),
-                    detail=['%d differing orderings of %d' % (len(diffs), n)])
-
-
-def _fmt_expand(o):
-    if o[0] != 'done':
-        return repr(o)[:200]
-    parts = []
-    for k, v in o[1]:
-        if isinstance(v, tuple):
-            parts.append('%s=(%s)' % (k, ', '.join(poly_key_str(x) if isinstance(x, tuple) else str(x) for x in v)))
-        else:
-            parts.append('%s=%s' % (k, v))
-    return '; '.join(parts)
-
-
-# -- (g) createMatch / _create_match ----------------------------------------------------------------------------------------
-
-def match_pair(R, lib, zs, sv):
-    role_c = {'startYm.yearTiny': 'startYm.y', 'startYm.month': 'startYm.M', 'untilYm.yearTiny': 'untilYm.y', 'untilYm.month': 'untilYm.M'}
-    role_p = {'prev_era': 'prev', 'zone_era': 'era', 'start_ym.y': 'startYm.y', 'start_ym.M': 'startYm.M', 'until_ym.y': 'untilYm.y', 'until_ym.M': 'untilYm.M'}
-    for side in ('prev', 'era'):
-        src = 'prev_era' if side == 'prev' else 'zone_era'
-        role_p['%s.untilYear' % src] = side + '.untilYear'
-        role_p['%s.untilMonth' % src] = side + '.untilMonth'
-        role_p['%s.untilDay' % src] = side + '.untilDay'
-        role_p['%s.untilSeconds' % src] = side + '.untilTime'
-        role_p['%s.untilTimeSuffix' % src] = side + '.untilSuffix'
-    pair = Pair('createMatch', 'ZoneSpecifier._create_match', csym=role_c, psym=role_p)
-    cf, sc, pf, sp = summarise_pair(lib, zs, pair, sv)
-    c = '%s~%s' % (pair.cname, pair.pname)
-
-    def pc(path):
-        a = _atom(_P(path[2])) if path[2] is not None else None
-        if a is not None and a[0] == 'init' and len(a[2]) == 3:
-            return ('match', a[2][0], a[2][1], a[2][2])
-        return ('?', path[2])
-
-    def pp(path):
-        a = _atom(_P(path[2])) if path[2] is not None else None
-        if a is not None and a[0] == 'fn' and a[1] == 'MATCH' and len(a[2]) == 1:
-            d = _atom(_P(a[2][0]))
-            if d is not None and d[0] == 'init' and d[1] == 'dict':
-                kv = {}
-                for x in d[2]:
-                    k = _atom(_P(x))
-                    if k is not None and k[0] == 'kv':
-                        ka = _atom(_P(k[1]))
-                        if ka is not None and ka[0] == 'str':
-                            kv[ka[1]] = k[2]
-                if set(kv) == {'startDateTime', 'untilDateTime', 'zoneEra'}:
-                    return ('match', kv['startDateTime'], kv['untilDateTime'], kv['zoneEra'])
-        return ('?', path[2])
-    n, diffs = compare_pair(sc, sp, pc, pp, None, None)
-    R.instance('R1', c, cf.loc, '%d orderings' % n)
-    if n < 4:
-        raise AnalysisError('%s: only %d orderings compared for %s' % (cf.loc, n, c))
-    if diffs:
-        d = diffs[0]
-        R.violation('R1', c, cf.loc, 'the two implementations differ when %s: C++ -> %s, Python -> %s' %
-                    (d[0], tuple(poly_key_str(x) if isinstance(x, tuple) else x for x in d[1]), tuple(poly_key_str(x) if isinstance(x, tuple) else x for x in d[2])),
-                    detail=['%d differing orderings of %d' % (len(diffs), n)])
 
 
 # -- look-up loops -------------------------------------------------------------------------------------------------------------
